@@ -51,6 +51,27 @@ def module_write_rule(repo, eff):
     return out
 
 
+def shared_tilt_rule(chk, repo, eff, clause):
+    """The Tilt objects a plane records are handed to every wavefront that passes it by reference (Plane.multiply extends
+    the wavefront's list with them, Field.__mul__ builds new lists of the same objects): a later tilt fit may grow or
+    replace the plane's list, but an entry that is already there is never modified - the wavefronts computed before
+    would change with it."""
+    import re
+    bad, n = [], 0
+    for f in repo.all_functions():
+        s = eff.summary(f)
+        for w in s.writes:
+            if not re.search(r'\.tilt\b', w.detail):
+                continue
+            n += 1
+            if re.search(r'\.tilt\b.', w.detail):
+                bad.append(f'{f.key}: {w.how} on `{w.detail}` at {w.loc}')
+    chk.ob(clause, 'E-ownership', 'package', 'recorded Tilt objects are shared with the wavefronts that passed the plane: entries of a '
+           'tilt list are never modified in place', (not bad) if n else None,
+           ('; '.join(sorted(set(bad))[:3]) + ' - the entry is the object earlier wavefronts hold, so their result changes after the fact')
+           if bad else f'{n} write(s) reach a tilt list, all of them append to / extend / rebind the list itself', '')
+
+
 def plane_copy_rules(chk, repo, clause):
     """Plane.copy is deep, and fit_tilt(inplace=False) hands back such a copy on every path: what a plane multiplies by is
     then independent of what is done to its copies (C10-f; the phasor of C07 reads the same arrays)"""
@@ -162,6 +183,7 @@ def run(chk, repo, tier):
            f'{len(fmw)} planted module-state writes recognised in fixtures/module_state')
 
     # ---------------------------------------------------------------- C10-e
+    shared_tilt_rule(chk, repo, eff, 'C10-f')
     common.tilt_slot_agreement(chk, repo, 'C10-e')
 
     # ---------------------------------------------------------------- C10-f
